@@ -75,7 +75,7 @@ fn next_name(rng: &mut Rng, prev: &str) -> String {
 }
 
 fn gen_table(rng: &mut Rng, miri: bool) -> (Table, u32, u32) {
-    let ns = if miri { rng.usize(1, 3) } else if rng.chance(1, 10) { rng.usize(50, 130) } else { rng.usize(1, 8) };
+    let ns = if miri { rng.usize(1, 3) } else if rng.chance(1, 60) { rng.usize(250, 310) } else if rng.chance(1, 10) { rng.usize(50, 130) } else { rng.usize(1, 8) };
     let seg_size = *rng.pick(&[0u32, 50, 1000, 60000]);
     let k = rng.range(1, 32) as u32;
     let pred = seg_size + k;
@@ -90,7 +90,7 @@ fn gen_table(rng: &mut Rng, miri: bool) -> (Table, u32, u32) {
                 break cand;
             }
         };
-        let nc = if miri { rng.usize(0, 3) } else if rng.chance(1, 12) { rng.usize(30, 120) } else { rng.usize(0, 8) };
+        let nc = if miri { rng.usize(0, 3) } else if ns < 20 && rng.chance(1, 30) { rng.usize(125, 400) } else if rng.chance(1, 12) { rng.usize(30, 120) } else { rng.usize(0, 8) };
         let mut contigs: Vec<(String, Vec<SegmentDesc>)> = Vec::new();
         let mut used = std::collections::HashSet::new();
         let mut prev = String::new();
@@ -111,7 +111,7 @@ fn gen_table(rng: &mut Rng, miri: bool) -> (Table, u32, u32) {
                 salt += 1;
             }
             prev = name.clone();
-            let nseg = if rng.chance(1, 8) { 0 } else { rng.usize(1, if miri { 4 } else { 12 }) };
+            let nseg = if rng.chance(1, 8) { 0 } else if !miri && rng.chance(1, 150) { rng.usize(120, 300) } else { rng.usize(1, if miri { 4 } else { 12 }) };
             let mut segs = Vec::new();
             for _ in 0..nseg {
                 let group = if rng.chance(1, 3) { rng.below(24) } else { rng.below(max_group) } as u32;
@@ -413,6 +413,19 @@ pub fn run(args: &Args, rep: &mut Report) {
                 rep.count(if full { "tables_through_archive_file" } else { "tables_through_codec_only" }, 1);
                 if table.len() > 50 {
                     rep.count("tables_with_several_batches", 1);
+                }
+                if table.len() > 256 {
+                    rep.count("tables_with_more_than_256_samples", 1);
+                }
+                let max_contigs = table.iter().map(|(_, c)| c.len()).max().unwrap_or(0);
+                let max_segs = table.iter().flat_map(|(_, c)| c.iter().map(|(_, s)| s.len())).max().unwrap_or(0);
+                rep.max("max_contigs_in_a_sample", max_contigs as u64);
+                rep.max("max_segments_in_a_contig", max_segs as u64);
+                if max_contigs > 128 {
+                    rep.count("tables_with_more_than_128_contigs_in_a_sample", 1);
+                }
+                if max_segs > 128 {
+                    rep.count("tables_with_more_than_128_segments_in_a_contig", 1);
                 }
                 let nseg: usize = table.iter().map(|(_, c)| c.iter().map(|(_, s)| s.len()).sum::<usize>()).sum();
                 if nseg > 0 {
